@@ -675,6 +675,8 @@ def cdf_ref(f, P, x):
         return mpf(1)
     if x == lo and not f.discrete:
         return mpf(0)
+    if f.discrete:
+        return f.cdf(P, mp.floor(x))   # step function: sum_{j <= floor(x)} pmf(j)
     return f.cdf(P, x)
 
 
@@ -688,6 +690,8 @@ def cdf_region(f, P, x):
         return 'lower-end'
     if x == hi and not f.discrete:
         return 'upper-end'
+    if f.discrete and x != mp.floor(x):
+        return 'interior:between-atoms'
     return 'interior'
 
 
@@ -721,9 +725,9 @@ def do_cdf(e, out):
             def fun(a, x=x):
                 PP = [a[k] if a[k] is not None else P[k] for k in range(len(P))]
                 xx = a[-1] if a[-1] is not None else x
-                if cdf_region(f, PP, xx) != 'interior':
+                if not cdf_region(f, PP, xx).startswith('interior'):
                     return None
-                return f.cdf(PP, xx)
+                return cdf_ref(f, PP, xx)
             cond = partial_sum(fun, args)
             if cond is not None and f.cdf_extra is not None:
                 cond += f.cdf_extra(P, x)
